@@ -17,7 +17,7 @@ RULE = (
     "six cells (2x3 or 3x2 grid, index column included) each independently one of {NULL spelled as in the header, "
     "NULL spelled differently, NULL +/- a small printable difference, ordinary}: all 4^6 placements; NULL value in "
     "{-999.25, 0, 1e30, -9999, 999, -0.5, -99999.25, 2147483647} with 3 header spellings; engine {numpy, normal}; null_policy {strict, none}; "
-    "WRAP {NO, YES}; optional text column; every read result is also written with defaults and re-read, then edited in place (every non-index cell toggled between NaN and a value), written and re-read again; quick = full "
+    "WRAP {NO, YES}; optional text column; declared curves = all / one fewer than the data columns / none; use_normal_engine_for_wrapped on/off; every read result is also written with defaults and re-read, then edited in place (every non-index cell toggled between NaN and a value), written and re-read again; quick = full "
     "product placement x 3 NULL values x policy x engine plus each secondary axis one at a time against all "
     "placements, thorough = full product of all axes; non-trivial = at least one cell is NULL-equal or near-NULL"
 )
@@ -69,6 +69,13 @@ def points(tier):
             for eng in ("numpy", "normal"):
                 for pl in PLACEMENTS:
                     pts.append([nv, 0, "2x3", "NO", False, pol, eng, pl])
+    # the numpy engine kept although null_policy is not 'strict' (use_normal_engine_for_wrapped=False), and
+    # data columns beyond the declared curves (one curve fewer declared, no ~Curve items at all)
+    for extra in (["all", True], ["fewer", False], ["none", False], ["fewer", True]):
+        for pol in ("strict", "none"):
+            for eng in ("numpy", "normal"):
+                for pl in PLACEMENTS[::7]:
+                    pts.append([0, 0, "2x3", "NO", False, pol, eng, pl] + extra)
     for alt in ([0, 1, "2x3", "NO", False], [0, 2, "2x3", "NO", False], [0, 0, "3x2", "NO", False],
                 [0, 0, "2x3", "YES", False], [0, 0, "2x3", "NO", True], [1, 1, "3x2", "YES", True], [7, 2, "2x3", "NO", False]):
         for eng in ("numpy", "normal"):
@@ -78,7 +85,8 @@ def points(tier):
 
 
 def build(pt):
-    nv, hs, shape, wrap, text, pol, eng, pl = pt
+    nv, hs, shape, wrap, text, pol, eng, pl = pt[:8]
+    declared = pt[8] if len(pt) > 8 else "all"
     nullv, hsp, dsp, near = NULLS[nv]
     r, c = (2, 3) if shape == "2x3" else (3, 2)
     toks, kinds = [], []
@@ -104,6 +112,10 @@ def build(pt):
     curves = [("DEPT", "M", "", "depth")] + [("C%d" % j, "", "", "curve %d" % j) for j in range(1, c)]
     if text:
         curves.append(("TXT", "", "", "text column"))
+    if declared == "fewer":
+        curves = curves[:-1]
+    elif declared == "none":
+        curves = []
     lines = ["~A"]
     for i, row in enumerate(toks):
         full = list(row) + (["abc%d" % i] if text else [])
@@ -117,19 +129,22 @@ def build(pt):
 
 
 def check_point(pt):
-    nv, hs, shape, wrap, text, pol, eng, pl = pt
+    nv, hs, shape, wrap, text, pol, eng, pl = pt[:8]
+    keep_numpy = pt[9] if len(pt) > 9 else False
     textfile, toks, kinds, nullv, r, c = build(pt)
+    rkw = {"use_normal_engine_for_wrapped": False} if keep_numpy else {}
     nontriv = any(k != "o" for k in pl)
     ptd = {"nullv": nv, "hspell": hs, "shape": shape, "wrap": wrap, "text": text, "policy": pol, "engine": eng, "placement": pl}
 
     def V(clause, expected, observed, sig=None):
-        return {"clause": clause, "sig": sig or "%s:null=%s:%s" % (pol, NULLS[nv][0], "wrap" if wrap == "YES" else "nowrap") + (":text" if text else ""),
+        return {"clause": clause, "sig": sig or "%s:null=%s:%s" % (pol, NULLS[nv][0], "wrap" if wrap == "YES" else "nowrap") + (":text" if text else "")
+                + (":declared=%s" % pt[8] if len(pt) > 8 and pt[8] != "all" else "") + (":keep-numpy" if keep_numpy else ""),
                 "witness": {"point": pt, "text": textfile},
                 "expected": expected, "observed": observed, "size": len(textfile) + 10 * sum(k != "o" for k in pl),
-                "repro": "import lasio; print(lasio.read(%r, engine=%r, null_policy=%r).data)" % (textfile, eng, pol)}
+                "repro": "import lasio; print(lasio.read(%r, engine=%r, null_policy=%r, **%r).data)" % (textfile, eng, pol, rkw)}
 
     try:
-        las = lasio.read(textfile, engine=eng, null_policy=pol)
+        las = lasio.read(textfile, engine=eng, null_policy=pol, **rkw)
     except Exception as e:
         return [V("read-raises", "successful read", "%s: %s" % (type(e).__name__, str(e)[:150]))], nontriv, "raise", {}, 1
     vio = []
